@@ -817,15 +817,27 @@ func fullQueue() {
 			s.Size()
 			s.Show()
 		}
-		// drain: the waiting call must complete
-		for i := 0; i < 40 && !done; i++ {
+		// drain: the waiting call must complete, and nothing that was waiting for room is lost
+		var sizes [][2]int
+		drain := func() {
 			for s.HasPendingEvent() {
-				s.PollEvent()
+				if er, ok := s.PollEvent().(*tcell.EventResize); ok {
+					cw, ch := er.Size()
+					sizes = append(sizes, [2]int{cw, ch})
+				}
 			}
+		}
+		for i := 0; i < 40 && !done; i++ {
+			drain()
 			runtime.Gosched()
 		}
 		if !done {
 			w.Violation("wasm-setsize-never-returns", fmt.Sprintf("SetSize did not return although the event queue was drained (%d events were queued)", pre), nil)
+		} else {
+			drain()
+			if fmt.Sprint(sizes) != "[[7 3] [8 3]]" {
+				w.Violation("wasm-event-lost-on-full-queue", fmt.Sprintf("with %d undelivered events queued, SetSize(7,3) and SetSize(8,3) ran on another goroutine while the application was not polling; afterwards the resize events delivered are %v, want [[7 3] [8 3]]: an event that found the queue full was dropped", pre, sizes), map[string]interface{}{"queued": pre})
+			}
 		}
 		s.Fini()
 	}
